@@ -321,7 +321,12 @@ def case_scoping(seed):
         files[m[key].name + ".f90"] = "\n".join(lines) + "\n"
     if m["ext_decoy"]:
         n = m["ext_decoy"]
-        files[f"ext{seed % 997}.f90"] = f"subroutine {n}(x)\ninteger, intent(in) :: x\nend subroutine {n}\n"
+        ext_text = f"subroutine {n}(x)\ninteger, intent(in) :: x\nend subroutine {n}\n"
+        if rng.random() < 0.5:
+            files[f"ext{seed % 997}.f90"] = ext_text
+        else:  # in the consumer module's own source file: a file is not a host scope
+            k = m["B"].name + ".f90"
+            files[k] = (files[k] + ext_text) if rng.random() < 0.5 else (ext_text + files[k])
     base = core.mktemp("vf_c07_")
     try:
         root = os.path.join(base, "src")
@@ -503,9 +508,92 @@ def case_chain(seed):
     return {"viol": viol, "nslots": len(exp), "nontrivial": True, "hash": core.h(files), "relations": [], "sample": None}
 
 
+def case_order(seed):
+    """Resolution must not depend on the order in which modules are correlated: (a) a USE that appears only in a deeply nested
+    procedure, of a module that merely re-exports the name, with a same-named entity in the host; (b) a generic interface named
+    like an imported derived type (constructor defined outside the type's module) next to later users of that module."""
+    rng = random.Random(seed)
+    S = seed % 9973
+    files = {}
+    exp = {}
+    variant = rng.choice(["deep_use_of_reexport", "local_generic_named_like_imported_type"])
+    if variant == "deep_use_of_reexport":
+        base, re1 = f"mb{S}", f"mr{S}"
+        chain = [re1] + ([f"mq{S}"] if rng.random() < 0.4 else [])
+        host = rng.choice([f"a{S}_host", f"z{S}_host", f"m{S}_host"])
+        files[base + ".f90"] = f"module {base}\nimplicit none\ntype :: tt\ninteger :: a\nend type tt\ncontains\nsubroutine ss()\nend subroutine ss\nend module {base}\n"
+        prev = base
+        for c in chain:
+            only = rng.choice(["", ", only: tt, ss"])
+            files[c + ".f90"] = f"module {c}\nuse {prev}{only}\nimplicit none\nend module {c}\n"
+            prev = c
+        depth = rng.choice([1, 2, 2, 3])
+        L = [f"module {host}", "implicit none"]
+        host_has_own = rng.random() < 0.7
+        if host_has_own:
+            L += ["type :: tt", "integer :: own", "end type tt"]
+        L += ["contains", "subroutine outer1()"]
+        if depth == 1:
+            L += [f"use {prev}", "type(tt) :: sv1", "call ss()"]
+            exp["sv1"] = f"{base}::tt"
+            exp["call:outer1|ss"] = f"{base}::ss"
+        L += ["contains"] if depth >= 2 else []
+        if depth >= 2:
+            L += ["subroutine inner2()", f"use {prev}", "type(tt) :: sv2", "call ss()", "end subroutine inner2"]
+            exp["sv2"] = f"{base}::tt"
+            exp["call:inner2|ss"] = f"{base}::ss"
+        if depth == 3:
+            # an interface body inside the nested level is not possible; use a second internal procedure with ONLY
+            L += ["subroutine inner3()", f"use {prev}, only: tt", "type(tt) :: sv3", "end subroutine inner3"]
+            exp["sv3"] = f"{base}::tt"
+        L += ["end subroutine outer1"]
+        if host_has_own:
+            L += ["subroutine sibling()", "type(tt) :: sv9", "end subroutine sibling"]
+            exp["sv9"] = f"{host}::tt"
+        L += [f"end module {host}"]
+        files[host + ".f90"] = "\n".join(L) + "\n"
+    else:
+        m0 = f"mv{S}"
+        ext = rng.choice([f"b{S}_ext", f"y{S}_ext"])
+        users = [rng.choice([f"c{S}_user", f"a{S}_user", f"z{S}_user"])]
+        files[m0 + ".f90"] = f"module {m0}\nimplicit none\ntype :: vec\nreal :: x\nend type vec\nend module {m0}\n"
+        files[ext + ".f90"] = "\n".join([f"module {ext}", f"use {m0}", "implicit none", "interface vec", "module procedure make_vec", "end interface", "type(vec) :: sv4",
+                                          "contains", "function make_vec(i) result(v)", "integer, intent(in) :: i", "type(vec) :: sv5", "type(vec) :: v", "v%x = i", "end function make_vec",
+                                          f"end module {ext}"]) + "\n"
+        exp["sv4"] = f"{m0}::vec"
+        exp["sv5"] = f"{m0}::vec"
+        for u in users:
+            dep = rng.random() < 0.5
+            L = [f"module {u}", f"use {m0}"] + ([f"use {ext}, only: make_vec"] if dep else []) + ["implicit none", "type(vec) :: sv6", "contains", "subroutine pu()", "type(vec) :: sv7",
+                 "end subroutine pu", f"end module {u}"]
+            files[u + ".f90"] = "\n".join(L) + "\n"
+            exp["sv6"] = f"{m0}::vec"
+            exp["sv7"] = f"{m0}::vec"
+    base_dir = core.mktemp("vf_c07o_")
+    try:
+        root = os.path.join(base_dir, "src")
+        os.makedirs(root)
+        for n, t in files.items():
+            open(os.path.join(root, n), "w").write(t)
+        st, r = core.run_alone(observe_case, {"root": root}, timeout=120)
+    finally:
+        shutil.rmtree(base_dir, ignore_errors=True)
+    if st != "ok" or "error" in (r or {}):
+        return {"viol": [{"kf": {"kind": "ford_failed" if st == "ok" else "harness_" + st, "case": variant}, "w": {"detail": str(r)[-900:], "seed": seed, "files": files, "case": "order"}}],
+                "nslots": 0, "nontrivial": False, "hash": core.h(files), "sample": None, "relations": []}
+    viol = []
+    for k, e in exp.items():
+        obs = r["calls"].get(k[5:], "absent") if k.startswith("call:") else r["res"].get(k, "absent")
+        if obs != e:
+            viol.append({"kf": {"kind": "wrong_resolution", "slot": "call" if k.startswith("call:") else "vartype", "variant": variant,
+                                "found": "unresolved" if obs in ("unresolved", "absent") else "entity"},
+                         "w": {"slot": k, "expected": e, "observed": obs, "seed": seed, "files": files, "case": "order"}})
+    return {"viol": viol, "nslots": len(exp), "nontrivial": True, "hash": core.h(files), "relations": [], "sample": None}
+
+
 def dispatch(arg):
     kind, seed = arg
-    return {"scoping": case_scoping, "submodules": case_submodules, "chain": case_chain}[kind](seed)
+    return {"scoping": case_scoping, "submodules": case_submodules, "chain": case_chain, "order": case_order}[kind](seed)
 
 
 def main():
@@ -534,7 +622,7 @@ def main():
         sys.exit(1 if bad else 0)
     n = 4000 if run.tier == "thorough" else 500
     args = ([("scoping", run.seed * 100003 + i) for i in range(n)] + [("submodules", run.seed * 100003 + i) for i in range(n // 10)]
-            + [("chain", run.seed * 100003 + i) for i in range(n // 10)])
+            + [("chain", run.seed * 100003 + i) for i in range(n // 10)] + [("order", run.seed * 100003 + i) for i in range(n // 5)])
     results = core.fork_map(dispatch, args, per_case_fork=False, case_timeout=300, total_timeout=3400)
     for a, (st, r) in zip(args, results):
         if st != "ok":
@@ -545,7 +633,7 @@ def main():
         for v in r["viol"]:
             run.violation(v["kf"], v["w"])
     run.max_samples = 2
-    run.finish(floors={"evaluations": 400, "distinct_nontrivial": 250, "slots_compared_scoping": 5000, "slots_compared_submodules": 100, "slots_compared_chain": 100})
+    run.finish(floors={"evaluations": 400, "distinct_nontrivial": 250, "slots_compared_scoping": 5000, "slots_compared_submodules": 100, "slots_compared_chain": 100, "slots_compared_order": 100})
 
 
 if __name__ == "__main__":
